@@ -211,9 +211,14 @@ func (la *LeapArray) currentBucketOfTime(now uint64, bg BucketGenerator) (*Bucke
 			// current time has been next cycle of LeapArray and LeapArray dont't count in last cycle.
 			// reset BucketWrap
 			if la.updateLock.TryLock() {
-				old = bg.ResetBucketTo(old, bucketStart)
+				// Double check under the lock: another caller may have moved the bucket
+				// forward in the meantime, and a stale caller must never reset it backwards.
+				if bucketStart > atomic.LoadUint64(&old.BucketStart) {
+					old = bg.ResetBucketTo(old, bucketStart)
+					la.updateLock.Unlock()
+					return old, nil
+				}
 				la.updateLock.Unlock()
-				return old, nil
 			} else {
 				runtime.Gosched()
 			}
